@@ -66,6 +66,11 @@ inductive Op
   | close (idx : Nat)
   | remove (idx : Nat)
   | setCanCreate (b : Bool)
+  /-- `TunnelCommunity.remove_circuit(circuit_id, …)` up to its `await sleep(remove_tunnel_delay)`: the destroy is sent
+      and `Circuit.close()` marks the circuit CLOSING at once (this is also what `on_destroy` and `do_remove` trigger) -/
+  | removeRequest (cid : Nat)
+  /-- … and what it does after the delay: `self.circuits.pop(circuit_id, None)` -/
+  | removeDone (cid : Nat)
   | addListener (l : Listener)
   | notify (fromTunnel : Bool)
 deriving Repr, DecidableEq
@@ -95,6 +100,14 @@ def modifyAt (f : Circuit → Circuit) : List Circuit → Nat → List Circuit
   | [], _ => []
   | c :: cs, 0 => f c :: cs
   | c :: cs, n + 1 => c :: modifyAt f cs n
+
+/-- `Circuit.close()` on the circuit registered under `cid` -/
+def closeById (cid : Nat) (cs : List Circuit) : List Circuit :=
+  cs.map (fun c => if c.cid = cid then { c with closing := true } else c)
+
+/-- `self.circuits.pop(cid, None)` -/
+def popById (cid : Nat) (cs : List Circuit) : List Circuit :=
+  cs.filter (fun c => c.cid ≠ cid)
 
 /-! ### the tunnel community -/
 
@@ -168,6 +181,8 @@ def step (s : State) : Op → State × List Event
       ({ s with comm := { s.comm with circuits := modifyAt (fun c => { c with closing := true }) s.comm.circuits i } }, [])
   | .remove i => ({ s with comm := { s.comm with circuits := s.comm.circuits.eraseIdx i } }, [])
   | .setCanCreate b => ({ s with comm := { s.comm with canCreate := b } }, [])
+  | .removeRequest cid => ({ s with comm := { s.comm with circuits := closeById cid s.comm.circuits } }, [])
+  | .removeDone cid => ({ s with comm := { s.comm with circuits := popById cid s.comm.circuits } }, [])
   | .addListener l => ({ s with listeners := s.listeners ++ [l] }, [])
   | .notify ft => (s, notify s ft)
 
